@@ -895,13 +895,17 @@ package statefulset
 //@   at call AdoptOrphanRevisions#1 before: ghost gConfirmed = fresh != nil && fresh.UID == set.UID && fresh.DeletionTimestamp == nil
 //@   ghost var old2revs []*kubeapps.ControllerRevision
 //@   at loopstart 2: ghost old2revs = revisions
+//@   ghost var listed []*kubeapps.ControllerRevision   -- the history as listed, before anything is rewritten
+//@   at loopstart 1: ghost listed = revisions
 //@   modifies gApiFails, gWrites, gRevAdopts, gAlloc0, gConfirmed, gPermErr
 //@   ensures gWrites >= old(gWrites) && gRevAdopts >= old(gRevAdopts) && gApiFails >= old(gApiFails)
 //@   profile defaulted ensures [C11] deletinghandsoff: set.DeletionTimestamp != nil ==> gRevAdopts == old(gRevAdopts) && gWrites == old(gWrites)
 //@   profile defaulted ensures [C09] reported: gApiFails > old(gApiFails) ==> result != nil
 //@   profile defaulted ensures [C09] origin: result != nil ==> gApiFails > old(gApiFails) || gPermErr || errMarshal(result) || errSelector(result)
+//@   profile defaulted ensures [C02] quietowned: result == nil && (forall j int :: {listed[j]} 0 <= j && j < len(listed) ==> !revOrphan(listed[j])) ==> gWrites == old(gWrites) && gRevAdopts == old(gRevAdopts)
 //@   loop 1 "range revisions"
 //@     invariant gApiFails == old(gApiFails) && gWrites == old(gWrites) && gRevAdopts == old(gRevAdopts)
+//@     invariant [C02] noorphanseen: (forall j int :: {revisions[j]} 0 <= j && j < len(revisions) ==> !revOrphan(revisions[j])) ==> !hasOrphans
 //@   loop 2 "range revisions" frame entry
 //@     invariant len(revisions) == len(old2revs)
 //@     invariant forall j int :: {revisions[j]} 0 <= j && j < len(revisions) ==> revisions[j] != nil && revisions[j] >= gAlloc0 && allocated(revisions[j]) && (revisions[j].Labels == nil || revisions[j].Labels >= gAlloc0)
